@@ -93,6 +93,9 @@ KF_C34(ev) == KF_C34_Id(ev) # "none"
 KF_C37(ev) == FALSE
 KF_C37_Id(ev) == "none"
 
+(* C30: abipkgdiff pairs the binaries of the two packages by a key computed from each package's OWN common directory prefix. *)
+KF_C30_listed == TRUE
+
 (* C04: FALSE unless listed *)
 KF_C04_unescaped(ev) == FALSE
 ====================================================================================================
